@@ -19,10 +19,12 @@ var c19TypeIDs = []string{"string", "integer", "float", "bool", "pattern", "enum
 
 type c19Prop struct {
 	name, typeID, refID string
+	extraID             string // an id field on a non-reference type (e.g. an inline object's id)
 }
 type c19Obj struct {
-	name  string
-	props []c19Prop
+	name    string
+	innerID string // "" = no id field
+	props   []c19Prop
 }
 
 func c19Ident(r *wk.Rand, used map[string]bool) string {
@@ -53,6 +55,17 @@ func c19Gen(r *wk.Rand) []c19Obj {
 	objs := make([]c19Obj, nobj)
 	for i := range objs {
 		objs[i].name = c19Ident(r, usedObj)
+		objs[i].innerID = objs[i].name
+	}
+	for i := range objs {
+		switch r.Intn(10) {
+		case 0:
+			objs[i].innerID = ""
+		case 1:
+			objs[i].innerID = objs[r.Intn(len(objs))].name // the id of another object (or its own)
+		case 2:
+			objs[i].innerID = "SomethingElse"
+		}
 	}
 	allowMap := r.Chance(12)
 	for i := range objs {
@@ -60,9 +73,29 @@ func c19Gen(r *wk.Rand) []c19Obj {
 		used := map[string]bool{}
 		for j := 0; j < np; j++ {
 			p := c19Prop{name: c19Ident(r, used)}
+			if j > 0 && r.Chance(12) {
+				// a property that differs from an earlier one only in the case of its first letter
+				prev := objs[i].props[r.Intn(len(objs[i].props))].name
+				alt := strings.ToUpper(prev[:1]) + prev[1:]
+				if alt == prev {
+					alt = strings.ToLower(prev[:1]) + prev[1:]
+				}
+				dup := false
+				for _, q := range objs[i].props {
+					if q.name == alt {
+						dup = true
+					}
+				}
+				if !dup && alt != prev {
+					p.name = alt
+				}
+			}
 			p.typeID = wk.Pick(r, c19TypeIDs)
 			if p.typeID == "map" && !allowMap {
 				p.typeID = "list"
+			}
+			if p.typeID != "ref" && r.Chance(15) {
+				p.extraID = wk.Pick(r, []string{"InlineThing", "Burst", objs[r.Intn(len(objs))].name})
 			}
 			if p.typeID == "ref" {
 				if r.Chance(80) {
@@ -90,7 +123,13 @@ func c19YAML(r *wk.Rand, objs []c19Obj) string {
 	}
 	sb.WriteString("            objects:\n")
 	for _, o := range objs {
-		fmt.Fprintf(&sb, "                %s:\n                    id: %s\n", o.name, o.name)
+		fmt.Fprintf(&sb, "                %s:\n", o.name)
+		if o.innerID != "" {
+			fmt.Fprintf(&sb, "                    id: %s\n", o.innerID)
+		} else if len(o.props) == 0 {
+			sb.WriteString("                    properties: {}\n")
+			continue
+		}
 		if len(o.props) == 0 {
 			if r.Bool() {
 				sb.WriteString("                    properties: {}\n")
@@ -102,6 +141,8 @@ func c19YAML(r *wk.Rand, objs []c19Obj) string {
 			fmt.Fprintf(&sb, "                        %s:\n                            type:\n                                type_id: %s\n", p.name, p.typeID)
 			if p.typeID == "ref" {
 				fmt.Fprintf(&sb, "                                id: %s\n", p.refID)
+			} else if p.extraID != "" {
+				fmt.Fprintf(&sb, "                                id: %s\n", p.extraID)
 			}
 			if r.Bool() {
 				fmt.Fprintf(&sb, "                            display:\n                                name: \"N %s\"\n                                description: some text\n", p.name)
